@@ -46,6 +46,8 @@ ASSUMPTIONS = [
 TRUSTED = ["harness/api_xpath.c, harness/wb_xpath.c",
            "python AST -> XPath text / prefix form renderers in tools/checks/xpcomp.py (cross-checked on every evaluation: the text parsed by the "
            "model parser and the prefix form must denote the same tree)", "tools/extractors/xpath.py",
+           "xpcomp.yang_facts / yang_parse: the YANG statement parser that derives the schema facts of the engine (identity DAG, enum values incl. auto-assigned "
+           "ones, bit positions, leafref paths and target types) from the text of the test modules",
            "LyModel/XPath/FloatNum.lean (Float instance of the number type, driver only)"]
 
 HARNESS = "api_xpath"
